@@ -213,6 +213,21 @@ Definition show_unstarted (ls : list launch) (cl : list closer) (w : chan_wait) 
 Definition unstarted (ls : list launch) (cl : list closer) (ws : list chan_wait) : list string :=
   map (show_unstarted ls cl) (filter (fun w => negb (chan_wait_okb ls cl w)) ws).
 
+(* ---- no new shared state outside the table ----
+   A row of shared_untracked is a map / slice field of an owner type that the table does not track although it is mutated,
+   assigned or handed on outside a constructor and used by code reachable from two goroutine entry points. Each must be
+   either added to the table (with a guard) or listed, with a justification, in the exemption list (Model/C18_Exempt.v). *)
+Definition shared_row := (string * string * string * list string * list string)%type.   (* type, field, kind, entry points, use sites *)
+Definition shared_exemption := (string * string * string)%type.                        (* type, field, justification *)
+Definition shared_exemptb (ex : list shared_exemption) (r : shared_row) : bool :=
+  let '(ty, f, _, _, _) := r in existsb (fun e : shared_exemption => String.eqb (fst (fst e)) ty && String.eqb (snd (fst e)) f) ex.
+Definition untracked_shared (ex : list shared_exemption) (rows : list shared_row) : list shared_row :=
+  filter (fun r => negb (shared_exemptb ex r)) rows.
+Definition show_shared (r : shared_row) : string :=
+  let '(ty, f, k, entries, sites) := r in
+  ty ++ "." ++ f ++ " (" ++ k ++ ") is not in the table but is shared: reachable from {" ++ String.concat "; " entries ++
+  "}; used at " ++ String.concat ", " sites.
+
 (* the table still contains the waits the property is about: (group, must the table list code units it covers?) *)
 Definition expected_waits : list (string * bool) :=
   [("wg:ipfscluster.Cluster.wg", true);      (* Cluster.Shutdown collects the goroutines of NewCluster / run / Join *)
